@@ -60,6 +60,7 @@ impl<'a> Interp<'a> {
 
     // ------------------------------------------------------------------ Rust-API answers
 
+
     /// existence + size according to the Rust API (None = absent)
     pub fn rust_find(&mut self, av: usize, name: &str) -> Result<Option<u64>, Fail> {
         let Some(Obj::A(a)) = self.model.get_mut(&av) else { return Err(discard("no archive object")) };
@@ -131,7 +132,7 @@ impl<'a> Interp<'a> {
                 if path.len() >= MAX_PATH {
                     self.feat("longpath");
                 }
-                self.register("SFileOpenArchive", out as usize, Obj::A(ArchObj { live: true, path, pref: *p, mutable: false, modified: false, reference: Some(r), twin: None }))
+                self.register("SFileOpenArchive", out as usize, Obj::A(ArchObj { live: true, path, pref: *p, mutable: false, modified: false, dirty: false, map: Default::default(), reference: Some(r), twin: None }))
             }
             (Err(_), false) => Ok(()),
             (Ok(_), false) => Err(Fail::new("open-archive-fails-where-rust-opens", format!("SFileOpenArchive({path:?}) failed (error {}), Archive::open succeeds", self.storm.last_error()))),
@@ -155,7 +156,7 @@ impl<'a> Interp<'a> {
         }
         let rust = engine::guard("Archive::open", || Archive::open(&path)).map_err(|f| discard(f.message))?;
         match rust {
-            Ok(r) => self.register("SFileCreateArchive", out as usize, Obj::A(ArchObj { live: true, path, pref: PathRef::Created(target), mutable: false, modified: false, reference: Some(r), twin: None })),
+            Ok(r) => self.register("SFileCreateArchive", out as usize, Obj::A(ArchObj { live: true, path, pref: PathRef::Created(target), mutable: false, modified: false, dirty: false, map: Default::default(), reference: Some(r), twin: None })),
             Err(e) => Err(Fail::new("create-archive-succeeds-but-rust-cannot-open", format!("SFileCreateArchive({path:?}, {disposition}, {hash_size}) returned a handle, Archive::open fails: {e}"))),
         }
     }
@@ -196,7 +197,7 @@ impl<'a> Interp<'a> {
         match twin {
             Ok(t) => {
                 self.feat("writable");
-                self.register("SFileCreateArchive2", out as usize, Obj::A(ArchObj { live: true, path, pref: PathRef::Created(target), mutable: true, modified: false, reference: None, twin: Some(t) }))
+                self.register("SFileCreateArchive2", out as usize, Obj::A(ArchObj { live: true, path, pref: PathRef::Created(target), mutable: true, modified: false, dirty: false, map: Default::default(), reference: None, twin: Some(t) }))
             }
             Err(e) => Err(Fail::new("create-archive2-succeeds-but-rust-cannot-open", format!("SFileCreateArchive2({path:?}, v{version}) returned a handle, MutableArchive::open on a copy fails: {e}"))),
         }
@@ -379,11 +380,69 @@ impl<'a> Interp<'a> {
                 }
             }
         }
+        // A writable handle without changes since its last flush/compact describes exactly the
+        // file on disk: what a fresh read-only open of that file (the Rust API for the same
+        // archive) finds and reads is what the C API must serve through the handle.
+        let mut on_disk: Option<Option<Vec<u8>>> = None;
+        if hc == HClass::Live {
+            if let (Some(n), Some(Obj::A(a))) = (&ns, self.model.get(&v)) {
+                if a.mutable && a.modified && !a.dirty {
+                    let path = a.path.clone();
+                    if let Ok(Ok(mut disk)) = engine::guard("Archive::open(flushed file)", || Archive::open(&path)) {
+                        on_disk = Some(match engine::guard("Archive::find_file", || disk.find_file(n)) {
+                            Ok(Ok(Some(_))) => engine::guard("Archive::read_file", || disk.read_file(n)).ok().and_then(|r| r.ok()),
+                            _ => None,
+                        });
+                        self.feat("flushed-handle-vs-file-on-disk");
+                    }
+                }
+            }
+        }
         self.announce("SFileOpenFileEx", Self::name_label(name), hc.label());
         let mut out: Handle = std::ptr::null_mut();
         let ok = unsafe { (self.storm.SFileOpenFileEx)(hval(v), cn.ptr(), 0, &mut out) };
         if hc != HClass::Live {
             return self.must_fail("SFileOpenFileEx", hc, v, ok);
+        }
+        if let Some(d) = &on_disk {
+            if d.is_some() != ok {
+                if ok {
+                    self.note_handle(out as usize);
+                    unsafe { (self.storm.SFileCloseFile)(out) };
+                }
+                return Err(Fail::new(
+                    "flushed-writable-handle-disagrees-with-file-on-disk",
+                    format!(
+                        "after a flush with no later change, {ns:?} is {} in the archive file (fresh read-only Rust open of the same file) but SFileOpenFileEx on the writable handle {}",
+                        d.as_ref().map(|x| format!("readable, {} bytes", x.len())).unwrap_or("not readable".into()),
+                        if ok { "succeeds".to_string() } else { format!("fails (error {})", self.storm.last_error()) }
+                    ),
+                ));
+            }
+        }
+        // writable handles: the plain-map model of the handle's own successful modifications
+        let modelled: Option<Option<Vec<u8>>> = match (&ns, self.model.get(&v)) {
+            (Some(n), Some(Obj::A(a))) if a.mutable && !n.is_empty() && n.len() < MAX_PATH && !n.starts_with('(') => Some(a.map.get(&fold_name(n)).cloned()),
+            _ => None,
+        };
+        if let Some(Some(want)) = &modelled {
+            let n = ns.clone().unwrap_or_default();
+            if !ok {
+                return Err(Fail::new(
+                    "openfile-fails-for-file-the-handle-added",
+                    format!("SFileOpenFileEx({n:?}) fails (error {}) although this handle added that name ({} bytes) and has not removed or renamed it since", self.storm.last_error(), want.len()),
+                ));
+            }
+            if let Some((d, _)) = &expect {
+                if d != want {
+                    self.note_handle(out as usize);
+                    unsafe { (self.storm.SFileCloseFile)(out) };
+                    return Err(Fail::new(
+                        "writable-handle-content-differs-from-what-was-added",
+                        format!("{n:?}: the Rust API reads {} bytes that are not the {} bytes this handle added under that name", d.len(), want.len()),
+                    ));
+                }
+            }
         }
         match (expect, ok) {
             (Some((data, size)), true) => {
@@ -613,4 +672,9 @@ impl<'a> Interp<'a> {
         }
         Ok(())
     }
+}
+
+/// MPQ name folding (ASCII upper case, '/' → '\\'): the key of the plain-map model
+pub fn fold_name(n: &str) -> String {
+    n.replace('/', "\\").to_ascii_uppercase()
 }
